@@ -90,18 +90,25 @@ def A_(x):
     return str(x) if isinstance(x, int) else x
 
 
-def table_obligation(run, oid, key, system):
+def table_check(system):
+    auto = A.Auto(system.d["extra"]["automaton"])
+    lk = [l for l in system.d["lookups"] if l["name"].startswith("automaton transition check")]
+    if len(lk) != 1:
+        return None, None
+    table = sorted({tuple(int(x, 16) for x in row) for row in lk[0]["table"]})
+    expected = sorted({(0, 0, 0, 0)} | {(s + 1, b, t + 1, m) for s, b, t, m in auto.raw} | {(f + 1, 256, 0, 0) for f in auto.final})
+    return table, expected
+
+
+def table_obligation(run, oid, key, system, cx):
     ob = core.Ob(oid, "C", "lookup table loaded by AutomatonChip::load = transitions of the compiled automaton (states offset by 1) + (0,0,0,0) + one sentinel (f+1,256,0,0) per final state",
                  functions=[F_PARSE[3], "circuits/src/parsing/automaton_chip.rs::NativeAutomaton::from_collection"], bound="every 4-tuple", key=key + ":table")
     run.add(ob)
     if _skip(run, ob):
         return
-    auto = A.Auto(system.d["extra"]["automaton"])
-    lk = [l for l in system.d["lookups"] if l["name"].startswith("automaton transition check")]
-    if len(lk) != 1:
-        return ob.set(INCONCLUSIVE, f"expected one automaton lookup, found {len(lk)}")
-    table = sorted({tuple(int(x, 16) for x in row) for row in lk[0]["table"]})
-    expected = sorted({(0, 0, 0, 0)} | {(s + 1, b, t + 1, m) for s, b, t, m in auto.raw} | {(f + 1, 256, 0, 0) for f in auto.final})
+    table, expected = table_check(system)
+    if table is None:
+        return ob.set(INCONCLUSIVE, "expected exactly one automaton lookup")
 
     def pred(name, rows):
         by = {}
@@ -122,7 +129,7 @@ def table_obligation(run, oid, key, system):
     if r.status == "sat":
         t = tuple(r.model.get(f"x{i}", 0) for i in range(4))
         if (t in set(table)) != (t in set(expected)):
-            path = run.write_replay(ob, dict(kind="c19-table", tuple=list(t), in_table=t in set(table), in_expected=t in set(expected), ax=system.d["extra"]))
+            path = run.write_replay(ob, dict(kind="c19-table", tuple=list(t), in_table=t in set(table), in_expected=t in set(expected), ax=cx))
             return ob.set(VIOLATION, f"tuple {t}: in the loaded lookup table: {t in set(table)}; in transitions+sentinels of the compiled automaton: {t in set(expected)}", solver=r.solver, replay=path)
         return ob.set(INCONCLUSIVE, "model does not re-evaluate")
     return ob.set(INCONCLUSIVE, f"solver {r.status} {r.raw[:160]}")
@@ -169,7 +176,7 @@ def parse_one(run, name, params, n, w, with_table):
         return
     t0 = time.time()
     try:
-        A.c_decide(run, ob, "automaton", "parse", params, w, parse_spec, k=k, timeout=120)
+        A.c_decide(run, ob, "automaton", "parse", params, w, parse_spec, k=k, timeout=120, label=f"[{name}, input length {n}]")
     except Exception as ex:  # noqa
         import traceback
         ob.set(INCONCLUSIVE, f"engine error {ex!r} {traceback.format_exc()[-300:]}")
@@ -177,7 +184,7 @@ def parse_one(run, name, params, n, w, with_table):
     if with_table:
         try:
             system = A.c_extract("automaton", "parse", params, w, k)
-            table_obligation(run, f"C/parse[{name}]:table", f"parse:{name}", system)
+            table_obligation(run, f"C/parse[{name}]:table", f"parse:{name}", system, cengine.cx_args("automaton", "parse", params, w, k))
         except Exception as ex:  # noqa
             ob2 = core.Ob(f"C/parse[{name}]:table", "C", "lookup table = transitions + sentinels")
             run.add(ob2)
@@ -199,7 +206,9 @@ def b64_defs(e, url):
         return "rfc_b64"
     if ("b64", "url") not in e.monos:
         e.monos[("b64", "url")] = "rfc_b64url"
-        e.lines.append("(define-fun rfc_b64url ((c Int)) Int (ite (= c 45) 62 (ite (= c 95) 63 (rfc_b64 c))))")
+        # section 5: "identical to the base 64 alphabet except for the 62nd and 63rd characters": read '-' as
+        # '+' and '_' as '/'
+        e.lines.append("(define-fun rfc_b64url ((c Int)) Int (rfc_b64 (ite (= c 45) 43 (ite (= c 95) 47 c))))")
     return "rfc_b64url"
 
 
@@ -279,32 +288,37 @@ def table_replay(c):
 def quantum(e, url, cs, os, npad_allowed, part):
     """spec of one 4-character quantum cs -> 3 bytes os. npad_allowed: '=' may close the quantum.
     part: 'data' (well-formedness + data bytes) | 'filler' (filler bytes are zero).
-    Short last quantum of the unpadded form: cs has 2 or 3 entries."""
+    Short last quantum of the unpadded form: cs has 2 or 3 entries.
+    The character values and the 24-bit group are named by definitional variables (they exist and are
+    unique for every value of the cells), which keeps the negated specification small."""
     v = b64_defs(e, url)
     c = [A_(x) for x in cs]
     o = [A_(x) for x in os]
     k = len(c)
-    val = lambda x: f"({v} {x})"
-    isval = lambda x: f"(>= ({v} {x}) 0)"
     ispad = lambda x: f"(= {x} 61)"
     rng = lambda x: f"(and (<= 0 {x}) (<= {x} 255))"
-    if k == 4 and npad_allowed:
-        v2 = f"(ite {ispad(c[2])} 0 {val(c[2])})"
-        v3 = f"(ite {ispad(c[3])} 0 {val(c[3])})"
-        wf = AND(isval(c[0]), isval(c[1]), OR(isval(c[2]), ispad(c[2])), OR(isval(c[3]), ispad(c[3])), IMP(ispad(c[2]), ispad(c[3])))
-        n = f"(+ (* 262144 {val(c[0])}) (* 4096 {val(c[1])}) (* 64 {v2}) {v3})"
-        b0 = f"(and {rng(o[0])} (<= (* 65536 {o[0]}) {n}) (< {n} (* 65536 (+ {o[0]} 1))))"
-        b01 = f"(and {rng(o[1])} (<= (* 256 (+ (* 256 {o[0]}) {o[1]})) {n}) (< {n} (* 256 (+ (* 256 {o[0]}) {o[1]} 1))))"
-        b012 = f"(and {rng(o[2])} (= {n} (+ (* 65536 {o[0]}) (* 256 {o[1]}) {o[2]})))"
-        if part == "data":
-            return AND(wf, b0, IMP(NOT(ispad(c[2])), b01), IMP(NOT(ispad(c[3])), b012))
-        return AND(IMP(ispad(c[2]), f"(= {o[1]} 0)"), IMP(ispad(c[3]), f"(= {o[2]} 0)"))
-    vals = [val(x) for x in c] + ["0"] * (4 - k)
-    wf = AND(*[isval(x) for x in c])
-    n = f"(+ (* 262144 {vals[0]}) (* 4096 {vals[1]}) (* 64 {vals[2]}) {vals[3]})"
+    vals = []
+    for i, x in enumerate(c):
+        nm = e.fresh("cv")
+        if npad_allowed and k == 4 and i >= 2:
+            e.lines.append(f"(assert (= {nm} (ite {ispad(x)} 0 ({v} {x}))))")
+        else:
+            e.lines.append(f"(assert (= {nm} ({v} {x})))")
+        vals.append(nm)
+    vals += ["0"] * (4 - k)
+    n = e.fresh("grp")
+    e.lines.append(f"(assert (= {n} (+ (* 262144 {vals[0]}) (* 4096 {vals[1]}) (* 64 {vals[2]}) {vals[3]})))")
+    isval = lambda i: f"(>= {vals[i]} 0)"
     b0 = f"(and {rng(o[0])} (<= (* 65536 {o[0]}) {n}) (< {n} (* 65536 (+ {o[0]} 1))))"
     b01 = f"(and {rng(o[1])} (<= (* 256 (+ (* 256 {o[0]}) {o[1]})) {n}) (< {n} (* 256 (+ (* 256 {o[0]}) {o[1]} 1))))"
     b012 = f"(and {rng(o[2])} (= {n} (+ (* 65536 {o[0]}) (* 256 {o[1]}) {o[2]})))"
+    if k == 4 and npad_allowed:
+        # vals[2], vals[3] are 0 on '=' : validity of those positions is "valid character or '='"
+        wf = AND(isval(0), isval(1), isval(2), isval(3), IMP(ispad(c[2]), ispad(c[3])))
+        if part == "data":
+            return AND(wf, b0, IMP(NOT(ispad(c[2])), b01), IMP(NOT(ispad(c[3])), b012))
+        return AND(IMP(ispad(c[2]), f"(= {o[1]} 0)"), IMP(ispad(c[3]), f"(= {o[2]} 0)"))
+    wf = AND(*[isval(i) for i in range(k)])
     if part == "data":
         return AND(wf, b0, b01 if k >= 3 else "true", b012 if k == 4 else "true")
     return AND(f"(= {o[1]} 0)" if k == 2 else "true", f"(= {o[2]} 0)" if k <= 3 else "true")
@@ -356,7 +370,7 @@ def b64_one(run, op, n, padded, honest, part, key, k=13, what=None, spec=None, t
     spec = spec or (var_spec(url, part) if var else fixed_spec(url, padded, part))
     t0 = time.time()
     try:
-        A.c_decide(run, ob, "base64", op, params, list(honest), spec, k=k, timeout=120, enc_cls=A.B64Enc, twin=twin)
+        A.c_decide(run, ob, "base64", op, params, list(honest), spec, k=k, timeout=120, enc_cls=A.B64Enc, twin=twin, discover=True)
     except Exception as ex:  # noqa
         import traceback
         ob.set(INCONCLUSIVE, f"engine error {ex!r} {traceback.format_exc()[-300:]}")
@@ -416,7 +430,12 @@ def replay(payload):
         print(rep)
         return 1 if rep["reproduced"] else 0
     if payload.get("kind") == "c19-table":
-        params = payload["ax"]["params"]
-        print("table tuple", payload["tuple"], "in table:", payload["in_table"], "expected:", payload["in_expected"])
-        return 1
+        import subprocess
+        A.build()
+        p = subprocess.run([A.AXBIN] + payload["ax"], capture_output=True, text=True)
+        system = csmt.System(json.loads(p.stdout), csmt.P_BLS)
+        table, expected = table_check(system)
+        t = tuple(payload["tuple"])
+        print("tuple", t, "in the lookup table loaded by the real chip:", t in set(table), "; in transitions+sentinels of the real compiled automaton:", t in set(expected))
+        return 1 if (t in set(table)) != (t in set(expected)) else 0
     return A.c_replay_payload(payload)
